@@ -367,8 +367,8 @@ func TestSim(t *testing.T) {
 			}
 		}
 		fmt.Println("run", run)
-		_ = os.WriteFile("/tmp/difflog-a.txt", []byte(strings.Join(a.FullLog, "\n")), 0o644)
-		_ = os.WriteFile("/tmp/difflog-b.txt", []byte(strings.Join(b.FullLog, "\n")), 0o644)
+		_ = os.WriteFile(os.Getenv("VERIF_DIFF_PREFIX")+"-a.txt", []byte(strings.Join(a.FullLog, "\n")), 0o644)
+		_ = os.WriteFile(os.Getenv("VERIF_DIFF_PREFIX")+"-b.txt", []byte(strings.Join(b.FullLog, "\n")), 0o644)
 		fmt.Println("hashes", a.LogHash, b.LogHash, a.Outcome, b.Outcome, a.Class, b.Class)
 		return
 	}
